@@ -10,7 +10,9 @@
            conflicting supertypes, merge_contains_all_features, merge_no_foreign_refs.
    Part 6: the feature invariant WFf of C11 through a merge (create_type / _add_feature as in TSProofs but under the
            skeleton invariant; re-parenting suspends completeness for the moved subtree and the inherited list restores
-           it), merge_WFf, conflicting feature declarations. *)
+           it), merge_WFf, conflicting feature declarations.
+   Part 7: nothing comes from nowhere (every type and own feature of the result is built in or declared); order
+           independence for inputs without competing supertypes. *)
 From Cassis Require Import Base TS TSProofs Merge.
 From Coq Require Import Arith.
 
@@ -2186,4 +2188,338 @@ Proof.
   intros HW H1 H2 Hf1 Hf2 Hn Hdiff Hchain. apply (merge_fails_with_value inputs HW). intros ts H.
   pose proof (merge_ok_features_agree inputs ts d1 d2 f1 f2 HW H H1 H2 Hf1 Hf2 Hn (Hchain ts H)) as E.
   apply feat_eqb_key in E. unfold fkey in E. inversion E. destruct Hdiff as [Hd|Hd]; apply Hd; assumption.
+Qed.
+
+(* ================================================================================================ nothing comes from nowhere *)
+(* every type of ts' is a type of ts or the one named x; every own feature of ts' is an own feature of the type of that
+   name in ts, or one of fs on the type named x *)
+Definition from_le (ts ts' : tsys) (x : tname) (fs : list feat) : Prop :=
+  forall t', In t' ts' ->
+    ((exists t, In t ts /\ t_name t = t_name t') \/ t_name t' = x) /\
+    forall g, In g (t_own t') -> (exists t, In t ts /\ t_name t = t_name t' /\ In g (t_own t)) \/ (t_name t' = x /\ In g fs).
+Lemma from_le_refl ts x fs : from_le ts ts x fs.
+Proof. intros t Hin. split; [left; exists t; auto|]. intros g Hg. left. exists t. auto. Qed.
+Lemma from_le_trans a b c x fs : from_le a b x fs -> from_le b c x fs -> from_le a c x fs.
+Proof.
+  intros H1 H2 t' Hin. destruct (H2 t' Hin) as [Hn Ho]. split.
+  - destruct Hn as [(t1 & Hin1 & Hn1)|Hx]; [|right; exact Hx]. destruct (H1 t1 Hin1) as [[(t0 & Hin0 & Hn0)|Hx] _]; [left; exists t0; split; [exact Hin0|congruence]|right; congruence].
+  - intros g Hg. destruct (Ho g Hg) as [(t1 & Hin1 & Hn1 & Hg1)|Hx]; [|right; exact Hx].
+    destruct (H1 t1 Hin1) as [_ Ho1]. destruct (Ho1 g Hg1) as [(t0 & Hin0 & Hn0 & Hg0)|[Hx Hf]]; [left; exists t0; repeat split; auto; congruence|right; split; [congruence|exact Hf]].
+Qed.
+Lemma from_le_weaken ts ts' x fs fs' : incl fs fs' -> from_le ts ts' x fs -> from_le ts ts' x fs'.
+Proof.
+  intros Hi H t' Hin. destruct (H t' Hin) as [Hn Ho]. split; [exact Hn|]. intros g Hg. destruct (Ho g Hg) as [Hl|[Hx Hf]]; [left; exact Hl|right; split; [exact Hx|apply Hi; exact Hf]].
+Qed.
+(* maps that keep names and own features *)
+Lemma from_le_map (g : ty -> ty) ts x fs : (forall t, t_name (g t) = t_name t) -> (forall t, t_own (g t) = t_own t) -> from_le ts (map g ts) x fs.
+Proof.
+  intros Kn Ko t' Hin. apply in_map_iff in Hin. destruct Hin as (t & <- & Hin). rewrite Kn, Ko. split; [left; exists t; auto|].
+  intros f Hf. left. exists t. auto.
+Qed.
+Lemma create_type_from ts name supn desc ts' fs : registered ts TOP = true -> create_type ts name supn desc = Ok ts' -> from_le ts ts' name fs.
+Proof.
+  intros Htop H. destruct (create_type_inv' _ _ _ _ _ Htop H) as (_ & p & inh & _ & _ & _ & ->). intros t' Hin.
+  apply in_app_or in Hin. destruct Hin as [Hin|[<-|[]]].
+  - apply in_map_iff in Hin. destruct Hin as (t & <- & Hin). rewrite add_child_name, add_child_own. split; [left; exists t; auto|].
+    intros g Hg. left. exists t. auto.
+  - split; [right; reflexivity|]. intros g Hg. cbn [new_type rebuild_ctor t_own] in Hg. contradiction.
+Qed.
+Lemma add_feature_res_from ts x f ts' : add_feature_res ts x f = Ok ts' -> from_le ts ts' x [f].
+Proof.
+  intros H. destruct (add_feature_res_inv _ _ _ _ H) as [->|[-> _]]; [apply from_le_refl|].
+  intros t' Hin. apply in_map_iff in Hin. destruct Hin as (t & <- & Hin). rewrite spread_name. split; [left; exists t; auto|].
+  intros g Hg. apply own_spread in Hg. destruct Hg as [Hg|[Hn ->]]; [left; exists t; auto|right; split; [exact Hn|left; reflexivity]].
+Qed.
+Lemma merge_features_from i x fs : forall ts tags r, merge_features fn_form i x fs ts tags = Ok r -> from_le ts (fst r) x fs.
+Proof.
+  induction fs as [|f r0 IH]; intros ts tags r H; cbn [merge_features] in H; [inversion H; apply from_le_refl|].
+  cbn [fn_form addf] in H. destruct (add_feature_res ts x f) as [ts1| |] eqn:E; cbn [bind] in H; try discriminate.
+  eapply from_le_trans.
+  - apply (from_le_weaken _ _ _ [f]); [|apply (add_feature_res_from _ _ _ _ E)]. intros g [<-|[]]. left. reflexivity.
+  - apply (from_le_weaken _ _ _ r0); [|apply (IH _ _ _ H)]. intros g Hg. right. exact Hg.
+Qed.
+Lemma inherit_fn_from ts x f ts' y fs : inherit_fn ts x f = Ok ts' -> from_le ts ts' y fs.
+Proof.
+  intros H. destruct (inherit_fn_inv _ _ _ _ H) as [->| ->]; [apply from_le_refl|].
+  apply from_le_map; intros t; [apply (proj1 (spread_inh_fields ts x f t))|apply (proj1 (proj2 (spread_inh_fields ts x f t)))].
+Qed.
+Lemma inherit_list_from x l y fs : forall ts ts', inherit_list fn_form x l ts = Ok ts' -> from_le ts ts' y fs.
+Proof.
+  induction l as [|f r IH]; intros ts ts' H; cbn [inherit_list] in H; [inversion H; apply from_le_refl|].
+  cbn [fn_form inhf] in H. destruct (inherit_fn ts x f) as [ts1| |] eqn:E; cbn [bind] in H; try discriminate.
+  eapply from_le_trans; [apply (inherit_fn_from _ _ _ _ y fs E)|apply (IH _ _ H)].
+Qed.
+Lemma merge_super_from ts x sup ts' y fs : merge_super fn_form ts x sup = Ok ts' -> from_le ts ts' y fs.
+Proof.
+  intros H. unfold merge_super in H. destruct (get_type ts x) as [ex| |]; cbn [bind] in H; try discriminate.
+  destruct (t_super ex) as [exsup|]; [|discriminate]. destruct (String.eqb sup exsup); [inversion H; apply from_le_refl|].
+  destruct (ts_subsumes ts (t_name ex) sup) as [b1| |]; cbn [bind] in H; try discriminate. destruct b1; [discriminate|].
+  destruct (ts_subsumes ts exsup sup) as [b2| |]; cbn [bind] in H; try discriminate. destruct b2.
+  - unfold reparent in H. destruct (get_type ts sup) as [tn| |]; cbn [bind] in H; try discriminate.
+    destruct (find_ty ts exsup) as [tp|]; [|discriminate]. destruct (negb _); [discriminate|].
+    destruct (find_ty (relink ts (t_name ex) exsup (t_name tn) (S (t_rank tn))) (t_name tn)) as [tn1|]; [|discriminate].
+    eapply from_le_trans; [|apply (inherit_list_from _ _ y fs _ _ H)].
+    apply from_le_map; intros t; [apply relink_name|apply relink_own].
+  - destruct (ts_subsumes ts sup exsup) as [b3| |]; cbn [bind] in H; try discriminate. destruct b3; [inversion H; apply from_le_refl|discriminate].
+Qed.
+Lemma merge_decl_from st d st1 : registered (m_ts st) TOP = true -> merge_decl fn_form st d = Ok st1 ->
+  from_le (m_ts st) (m_ts st1) (dname d) (t_own (d_ty d)).
+Proof.
+  intros Htop H. unfold merge_decl in H. destruct (t_super (d_ty d)) as [sup|]; [|discriminate]. fold (dname d) in H.
+  destruct (registered (m_ts st) (dname d)).
+  - destruct (merge_super fn_form (m_ts st) (dname d) sup) as [ts1| |] eqn:E; cbn [bind] in H; try discriminate.
+    destruct (merge_features fn_form (d_in d) (dname d) (t_own (d_ty d)) ts1 (m_tags st)) as [r| |] eqn:Ef; cbn [bind] in H; try discriminate.
+    inversion H; subst st1. cbn [m_ts]. eapply from_le_trans; [apply (merge_super_from _ _ _ _ _ _ E)|apply (merge_features_from _ _ _ _ _ _ Ef)].
+  - destruct (create_type (m_ts st) (dname d) sup (t_desc (d_ty d))) as [ts1| |] eqn:E; cbn [bind] in H; try discriminate.
+    destruct (merge_features fn_form (d_in d) (dname d) (t_own (d_ty d)) ts1 (m_tags st)) as [r| |] eqn:Ef; cbn [bind] in H; try discriminate.
+    inversion H; subst st1. cbn [m_ts]. eapply from_le_trans; [apply (create_type_from _ _ _ _ _ _ Htop E)|apply (merge_features_from _ _ _ _ _ _ Ef)].
+Qed.
+
+(* every type of the merged type system is built in or declared, and so is every own feature *)
+Definition origin_ok (L : list decl) (ts : tsys) : Prop :=
+  forall t, In t ts ->
+    (registered init_ts (t_name t) = true \/ In (t_name t) (dnames L)) /\
+    forall g, In g (t_own t) -> (exists t0, find_ty init_ts (t_name t) = Some t0 /\ In g (t_own t0)) \/
+                                (exists d, In d L /\ dname d = t_name t /\ In g (t_own (d_ty d))).
+Lemma init_origin_ok L : origin_ok L init_ts.
+Proof.
+  intros t Hin. pose proof (In_find_ty _ _ (wf_nodup _ init_WFh) Hin) as Hf. split; [left; apply registered_iff; exists t; exact Hf|].
+  intros g Hg. left. exists t. split; [exact Hf|exact Hg].
+Qed.
+Lemma merge_decl_origin L st d st1 : Inv L st -> In d L -> origin_ok L (m_ts st) -> merge_decl fn_form st d = Ok st1 -> origin_ok L (m_ts st1).
+Proof.
+  intros HI Hd HO H. pose proof (merge_decl_from st d st1 (HI_top _ (inv_HI _ _ HI)) H) as Hfrom. intros t' Hin.
+  destruct (Hfrom t' Hin) as [Hn Ho]. split.
+  - destruct Hn as [(t & Hin0 & Hn0)|Hx]; [rewrite <- Hn0; apply (proj1 (HO t Hin0))|right; rewrite Hx; unfold dnames; apply in_map; exact Hd].
+  - intros g Hg. destruct (Ho g Hg) as [(t & Hin0 & Hn0 & Hg0)|[Hx Hf]].
+    + rewrite <- Hn0. apply (proj2 (HO t Hin0) g Hg0).
+    + right. exists d. auto.
+Qed.
+Lemma merge_origin inputs ts : all_WFh inputs -> merge inputs = Ok ts -> origin_ok (type_list inputs) ts.
+Proof.
+  intros HW H. destruct (merge_inv inputs ts HW H) as (st & Er & <- & _ & _ & _). set (L := type_list inputs) in *.
+  destruct (rounds_inv fn_form L (fun s => Inv L s /\ origin_ok L (m_ts s)) (fun _ _ => True)) with (fuel := S (List.length L)) (l := L) (st := st0) (st' := st)
+    as ((_ & HO) & _ & _).
+  - intros s d s1 [HI0 HO0] Hd _ Hm. destruct (merge_decl_Inv L s d s1 HI0 (type_list_ok inputs HW d Hd) Hm) as (HI1 & _ & _).
+    split; [split; [exact HI1|apply (merge_decl_origin L s d s1 HI0 Hd HO0 Hm)]|]. split; [exact I|auto].
+  - apply incl_refl.
+  - split; [apply Inv_st0|apply init_origin_ok].
+  - exact Er.
+  - exact HO.
+Qed.
+
+(* ================================================================================================ order independence (partial) *)
+(* the same declarations, whatever the input they come from and the order they come in *)
+Definition same_decls (L L' : list decl) : Prop := forall t, In t (map d_ty L) <-> In t (map d_ty L').
+(* no type is declared with two different supertypes (nor with one that differs from the built-in declaration) *)
+Definition no_competing (L : list decl) : Prop :=
+  (forall d1 d2, In d1 L -> In d2 L -> dname d1 = dname d2 -> t_super (d_ty d1) = t_super (d_ty d2)) /\
+  (forall d t0, In d L -> find_ty init_ts (dname d) = Some t0 -> t_super (d_ty d) = t_super t0).
+
+Lemma same_decls_sym L L' : same_decls L L' -> same_decls L' L.
+Proof. intros H t. symmetry. apply H. Qed.
+Lemma same_decls_In L L' d : same_decls L L' -> In d L -> exists d', In d' L' /\ d_ty d' = d_ty d.
+Proof. intros H Hd. assert (Hi : In (d_ty d) (map d_ty L)) by (apply in_map; exact Hd). apply H in Hi. apply in_map_iff in Hi. destruct Hi as (d' & E & Hd'). exists d'. auto. Qed.
+Lemma no_competing_transfer L L' : same_decls L L' -> no_competing L -> no_competing L'.
+Proof.
+  intros HS [H1 H2]. split.
+  - intros d1 d2 Hd1 Hd2 Hn. destruct (same_decls_In _ _ d1 (same_decls_sym _ _ HS) Hd1) as (e1 & He1 & E1).
+    destruct (same_decls_In _ _ d2 (same_decls_sym _ _ HS) Hd2) as (e2 & He2 & E2). rewrite <- E1, <- E2. apply (H1 e1 e2 He1 He2).
+    unfold dname. rewrite E1, E2. exact Hn.
+  - intros d t0 Hd Hf. destruct (same_decls_In _ _ d (same_decls_sym _ _ HS) Hd) as (e & He & E). rewrite <- E. apply (H2 e t0 He).
+    unfold dname. rewrite E. exact Hf.
+Qed.
+
+(* what a type sees of a feature exposed by one of its ancestors *)
+Lemma sees ts A n tA tn g : WFh ts -> WFf ts -> find_ty ts A = Some tA -> find_ty ts n = Some tn -> below ts A n ->
+  In g (t_own tA ++ t_inh tA) -> exists g', In g' (t_own tn ++ t_inh tn) /\ feat_eqb g' g = true.
+Proof.
+  intros W F HA Hn Hb Hg. destruct (find_ty_In _ _ _ HA) as [HAin HAn]. destruct (find_ty_In _ _ _ Hn) as [Hnin Hnn].
+  destruct (below_cases _ _ _ Hb) as [Heq|Hs].
+  - rewrite <- Heq in Hn. rewrite HA in Hn. inversion Hn; subst tn. exists g. split; [exact Hg|apply feat_eqb_refl].
+  - rewrite <- Hnn in Hs. apply in_app_or in Hg. destruct Hg as [Hg|Hg].
+    + destruct (wf_inh_complete _ F tn A tA g Hnin Hs HA Hg) as (f0 & Hf0 & He0). exists f0. split; [apply in_or_app; right; exact Hf0|exact He0].
+    + destruct (wf_inh_sound _ F tA g HAin Hg) as (a & ta & Hsa & Ha & Hoa). rewrite HAn in Hsa.
+      assert (Hs' : sbelow ts a (t_name tn)).
+      { destruct Hs as (td & s & Hfd & Hsd & Hbd). exists td, s. repeat split; auto. eapply below_trans; [apply sbelow_below; exact Hsa|exact Hbd]. }
+      destruct (wf_inh_complete _ F tn a ta g Hnin Hs' Ha Hoa) as (f0 & Hf0 & He0). exists f0. split; [apply in_or_app; right; exact Hf0|exact He0].
+Qed.
+
+(* the built-in features stay *)
+Lemma merge_grows_init inputs ts : all_WFh inputs -> merge inputs = Ok ts -> grows init_ts ts.
+Proof.
+  intros HW H. destruct (merge_inv inputs ts HW H) as (st & Er & <- & _ & _ & _). set (L := type_list inputs) in *.
+  destruct (rounds_inv fn_form L (fun s => Inv L s /\ grows init_ts (m_ts s)) (fun _ _ => True)) with (fuel := S (List.length L)) (l := L) (st := st0) (st' := st)
+    as ((_ & G) & _ & _).
+  - intros s d s1 [HI0 G0] Hd _ Hm. destruct (merge_decl_Inv L s d s1 HI0 (type_list_ok inputs HW d Hd) Hm) as (HI1 & _ & _).
+    destruct (merge_decl_grows L s d s1 HI0 (type_list_ok inputs HW d Hd) Hm) as (G1 & _).
+    split; [split; [exact HI1|apply (grows_trans _ _ _ G0 G1)]|]. split; [exact I|auto].
+  - apply incl_refl.
+  - split; [apply Inv_st0|exact (grows_refl init_ts)].
+  - exact Er.
+  - exact G.
+Qed.
+
+Section OrderIndependence.
+  Variables (inputs inputs' : list tsys) (a b : tsys).
+  Let L := type_list inputs.
+  Let L' := type_list inputs'.
+  Hypothesis HW : all_WFh inputs.
+  Hypothesis HW' : all_WFh inputs'.
+  Hypothesis HS : same_decls L L'.
+  Hypothesis HN : no_competing L.
+  Hypothesis Ha : merge inputs = Ok a.
+  Hypothesis Hb : merge inputs' = Ok b.
+
+  Lemma oi_names n : registered a n = true -> registered b n = true.
+  Proof.
+    intros Hr. apply registered_iff in Hr. destruct Hr as (t & Ht). destruct (find_ty_In _ _ _ Ht) as [Hin Hn].
+    destruct (merge_inv inputs' b HW' Hb) as (st & _ & <- & HI & HR & _).
+    destruct (proj1 (merge_origin inputs a HW Ha t Hin)) as [Hi|Hd]; rewrite Hn in *.
+    - apply (inv_init _ _ HI n Hi).
+    - unfold dnames in Hd. apply in_map_iff in Hd. destruct Hd as (d & Hdn & Hd). destruct (same_decls_In _ _ d HS Hd) as (d' & Hd' & E).
+      rewrite <- Hdn. unfold dname. rewrite <- E. apply (HR d' Hd').
+  Qed.
+  Lemma oi_tree m tm : find_ty a m = Some tm -> exists um, find_ty b m = Some um /\ t_super um = t_super tm.
+  Proof.
+    intros Hm. pose proof (merge_WFh inputs a HW Ha) as Wa. pose proof (merge_WFh inputs' b HW' Hb) as Wb.
+    assert (Hr : registered b m = true) by (apply oi_names; apply registered_iff; eauto).
+    apply registered_iff in Hr. destruct Hr as (um & Hum). exists um. split; [exact Hum|].
+    destruct (find_ty_In _ _ _ Hm) as [Hmin Hmn]. destruct (find_ty_In _ _ _ Hum) as [Huin Hun].
+    destruct (merge_inv2 inputs a HW Ha) as (Sa & _). destruct (merge_inv2 inputs' b HW' Hb) as (Sb & _).
+    pose proof (no_competing_transfer L L' HS HN) as HN'.
+    destruct (t_super tm) as [s|] eqn:Es; destruct (t_super um) as [s'|] eqn:Es'; auto.
+    - destruct (Sa m tm s Hm Es) as [(t0 & Ht0 & Hs0)|(d & Hd & Hdn & Hds)]; destruct (Sb m um s' Hum Es') as [(t0' & Ht0' & Hs0')|(d' & Hd' & Hdn' & Hds')].
+      + rewrite Ht0 in Ht0'. inversion Ht0'; subst t0'. congruence.
+      + rewrite <- Hdn' in Ht0. rewrite <- (proj2 HN' d' t0 Hd' Ht0) in Hs0. congruence.
+      + rewrite <- Hdn in Ht0'. rewrite <- (proj2 HN d t0' Hd Ht0') in Hs0'. congruence.
+      + destruct (same_decls_In _ _ d HS Hd) as (e & He & E). assert (Hen : dname e = dname d') by (unfold dname in *; rewrite E; congruence).
+        pose proof (proj1 HN' e d' He Hd' Hen) as Heq. rewrite E in Heq. congruence.
+    - exfalso. pose proof (wf_root _ Wb um Huin Es') as Htop. rewrite Hun in Htop.
+      destruct (wf_top _ Wa) as (t' & Ht' & Hn'). rewrite <- Htop, Hm in Ht'. inversion Ht' as [Htt]. rewrite <- Htt in Hn'. congruence.
+    - exfalso. pose proof (wf_root _ Wa tm Hmin Es) as Htop. rewrite Hmn in Htop.
+      destruct (wf_top _ Wb) as (t' & Ht' & Hn'). rewrite <- Htop, Hum in Ht'. inversion Ht' as [Htt]. rewrite <- Htt in Hn'. congruence.
+  Qed.
+  Lemma oi_below p q : below a p q -> below b p q.
+  Proof. apply below_transfer. intros n t Hn. apply (oi_tree n t Hn). Qed.
+
+  Lemma oi_features n t u : find_ty a n = Some t -> find_ty b n = Some u ->
+    forall f, In f (all_features t) -> exists y, In y (all_features u) /\ feat_eqb y f = true.
+  Proof.
+    intros Ht Hu f Hf. pose proof (merge_WFh inputs a HW Ha) as Wa. pose proof (merge_WFf inputs a HW Ha) as Fa.
+    pose proof (merge_WFh inputs' b HW' Hb) as Wb. pose proof (merge_WFf inputs' b HW' Hb) as Fb.
+    destruct (find_ty_In _ _ _ Ht) as [Htin Htn].
+    (* the owner of f in a *)
+    assert (Hown : exists A tA, below a A n /\ find_ty a A = Some tA /\ In f (t_own tA)).
+    { apply all_features_In in Hf. apply in_app_or in Hf. destruct Hf as [Hf|Hf].
+      - exists n, t. split; [apply below_refl|auto].
+      - destruct (wf_inh_sound _ Fa t f Htin Hf) as (A & tA & Hs & HA & Ho). rewrite Htn in Hs. exists A, tA. split; [apply sbelow_below; exact Hs|auto]. }
+    destruct Hown as (A & tA & HbA & HA & Ho). destruct (find_ty_In _ _ _ HA) as [HAin HAn].
+    (* b exposes it on the type of that name *)
+    assert (Hhas : has_feat b A f).
+    { destruct (proj2 (merge_origin inputs a HW Ha tA HAin) f Ho) as [(t0 & Ht0 & Hf0)|(d & Hd & Hdn & Hfd)]; rewrite HAn in *.
+      - destruct (merge_grows_init inputs' b HW' Hb A t0 Ht0) as (t0' & Ht0' & Ho0 & _). exists t0', f. split; [exact Ht0'|].
+        split; [apply in_or_app; left; apply Ho0; exact Hf0|apply feat_eqb_refl].
+      - destruct (same_decls_In _ _ d HS Hd) as (d' & Hd' & E). rewrite <- Hdn. unfold dname. rewrite <- E.
+        apply (merge_contains_all_features inputs' b HW' Hb d' f Hd'). rewrite E. exact Hfd. }
+    destruct Hhas as (tB & g & HB & Hg & Heg).
+    destruct (sees b A n tB u g Wb Fb HB Hu (oi_below _ _ HbA) Hg) as (g' & Hg' & Heg').
+    destruct (all_features_complete u g' Hg') as (y & Hy & Hey). exists y. split; [exact Hy|].
+    eapply feat_eqb_trans; [exact Hey|]. eapply feat_eqb_trans; eassumption.
+  Qed.
+End OrderIndependence.
+
+Lemma feat_eqb_feat_key y f : feat_eqb y f = true -> key_eqb (feat_key f) (feat_key y) = true.
+Proof.
+  intros H. apply feat_eqb_key in H. unfold fkey in H. inversion H. unfold key_eqb, feat_key. cbn [fst snd].
+  rewrite H1, H3, H4, !String.eqb_refl. reflexivity.
+Qed.
+Lemma oi_sub inputs inputs' a b : all_WFh inputs -> all_WFh inputs' -> same_decls (type_list inputs) (type_list inputs') ->
+  no_competing (type_list inputs) -> merge inputs = Ok a -> merge inputs' = Ok b -> sub_tsys a b = true.
+Proof.
+  intros HW HW' HS HN Ha Hb. unfold sub_tsys. apply forallb_forall. intros t Hin.
+  pose proof (merge_WFh inputs a HW Ha) as Wa. pose proof (In_find_ty _ _ (wf_nodup _ Wa) Hin) as Ht.
+  destruct (oi_tree inputs inputs' a b HW HW' HS HN Ha Hb (t_name t) t Ht) as (u & Hu & Hs). rewrite Hu.
+  destruct (find_ty_In _ _ _ Hu) as [_ Hun]. unfold ty_equiv. rewrite Hun, String.eqb_refl, Hs.
+  assert (Ho : ostr_eqb (t_super t) (t_super t) = true) by (apply ostr_eqb_eq; reflexivity). rewrite Ho. cbn [andb].
+  apply andb_true_iff. split.
+  - unfold incl_keys, eff_keys. apply forallb_forall. intros k Hk. apply in_map_iff in Hk. destruct Hk as (f & <- & Hf).
+    destruct (oi_features inputs inputs' a b HW HW' HS HN Ha Hb (t_name t) t u Ht Hu f Hf) as (y & Hy & Hey).
+    apply existsb_exists. exists (feat_key y). split; [apply in_map; exact Hy|apply feat_eqb_feat_key; exact Hey].
+  - unfold incl_keys, eff_keys. apply forallb_forall. intros k Hk. apply in_map_iff in Hk. destruct Hk as (f & <- & Hf).
+    destruct (oi_features inputs' inputs b a HW' HW (same_decls_sym _ _ HS) (no_competing_transfer _ _ HS HN) Hb Ha (t_name t) u t Hu Ht f Hf) as (y & Hy & Hey).
+    apply existsb_exists. exists (feat_key y). split; [apply in_map; exact Hy|apply feat_eqb_feat_key; exact Hey].
+Qed.
+
+(* For inputs in which no type is declared with two different supertypes: two tuples with the same declarations (a
+   permutation of the arguments, in particular) whose merges both succeed give the same types, the same supertypes and
+   the same effective features (as sets, up to Feature.__eq__). *)
+Theorem merge_order_independent_partial inputs inputs' a b : all_WFh inputs -> all_WFh inputs' ->
+  same_decls (type_list inputs) (type_list inputs') -> no_competing (type_list inputs) ->
+  merge inputs = Ok a -> merge inputs' = Ok b -> ts_equiv a b = true.
+Proof.
+  intros HW HW' HS HN Ha Hb. unfold ts_equiv. rewrite (oi_sub inputs inputs' a b HW HW' HS HN Ha Hb).
+  rewrite (oi_sub inputs' inputs b a HW' HW (same_decls_sym _ _ HS) (no_competing_transfer _ _ HS HN) Hb Ha). reflexivity.
+Qed.
+
+(* a permutation of the arguments declares the same things *)
+Lemma type_list_from_decls i inputs : map d_ty (type_list_from i inputs) = flat_map user_types inputs.
+Proof.
+  revert i. induction inputs as [|ts r IH]; intros i; [reflexivity|]. cbn [type_list_from flat_map]. rewrite map_app, map_map, IH.
+  f_equal. rewrite <- (map_id (user_types ts)) at 2. apply map_ext. reflexivity.
+Qed.
+Lemma permutation_same_decls inputs inputs' : Permutation inputs inputs' -> same_decls (type_list inputs) (type_list inputs').
+Proof.
+  intros HP t. unfold type_list. rewrite !type_list_from_decls, !in_flat_map. split; intros (ts & Hts & Ht); exists ts; split; auto.
+  - apply (Permutation_in _ HP). exact Hts.
+  - apply (Permutation_in _ (Permutation_sym HP)). exact Hts.
+Qed.
+Theorem merge_permutation_partial inputs inputs' a b : all_WFh inputs -> Permutation inputs inputs' -> no_competing (type_list inputs) ->
+  merge inputs = Ok a -> merge inputs' = Ok b -> ts_equiv a b = true.
+Proof.
+  intros HW HP HN Ha Hb. apply (merge_order_independent_partial inputs inputs' a b HW); auto.
+  - intros ts Hts. apply HW. apply (Permutation_in _ (Permutation_sym HP)). exact Hts.
+  - apply permutation_same_decls. exact HP.
+Qed.
+
+
+(* boolean twin of no_competing, for counting the cases that satisfy it *)
+Definition no_competingb (L : list decl) : bool :=
+  forallb (fun d1 => forallb (fun d2 => negb (String.eqb (dname d1) (dname d2)) || ostr_eqb (t_super (d_ty d1)) (t_super (d_ty d2))) L) L
+  && forallb (fun d => match find_ty init_ts (dname d) with Some t0 => ostr_eqb (t_super (d_ty d)) (t_super t0) | None => true end) L.
+Lemma no_competingb_sound L : no_competingb L = true -> no_competing L.
+Proof.
+  unfold no_competingb. rewrite andb_true_iff, !forallb_forall. intros [H1 H2]. split.
+  - intros d1 d2 Hd1 Hd2 Hn. pose proof (H1 d1 Hd1) as Hx. rewrite forallb_forall in Hx. specialize (Hx d2 Hd2).
+    rewrite Hn, String.eqb_refl in Hx. cbn [negb orb] in Hx. apply ostr_eqb_eq. exact Hx.
+  - intros d t0 Hd Hf. specialize (H2 d Hd). rewrite Hf in H2. apply ostr_eqb_eq. exact H2.
+Qed.
+
+(* ---- merging with itself / with an empty type system, as far as order independence reaches ---- *)
+Lemma same_decls_dup t : same_decls (type_list [t]) (type_list [t; t]).
+Proof.
+  intros x. unfold type_list. rewrite !type_list_from_decls. cbn [flat_map]. rewrite !in_app_iff. cbn [In]. tauto.
+Qed.
+Theorem merge_self_partial t a b : WFh t -> no_competing (type_list [t]) ->
+  merge [t] = Ok a -> merge [t; t] = Ok b -> ts_equiv a b = true.
+Proof.
+  intros W HN Ha Hb. apply (merge_order_independent_partial [t] [t; t] a b); auto.
+  - intros ts [<-|[]]. exact W.
+  - intros ts [<-|[<-|[]]]; exact W.
+  - apply same_decls_dup.
+Qed.
+(* TypeSystem() declares DocumentAnnotation only *)
+Lemma same_decls_empty t : (forall x, In x (user_types init_ts) -> In x (user_types t)) -> same_decls (type_list [t]) (type_list [t; init_ts]).
+Proof.
+  intros H x. unfold type_list. rewrite !type_list_from_decls. cbn [flat_map]. rewrite !in_app_iff. cbn [In]. split.
+  - intros [Hx|[]]. left. exact Hx.
+  - intros [Hx|[Hx|[]]]; [left; exact Hx|left; apply H; exact Hx].
+Qed.
+Theorem merge_empty_partial t a b : WFh t -> (forall x, In x (user_types init_ts) -> In x (user_types t)) -> no_competing (type_list [t]) ->
+  merge [t] = Ok a -> merge [t; init_ts] = Ok b -> ts_equiv a b = true.
+Proof.
+  intros W HD HN Ha Hb. apply (merge_order_independent_partial [t] [t; init_ts] a b); auto.
+  - intros ts [<-|[]]. exact W.
+  - intros ts [<-|[<-|[]]]; [exact W|exact init_WFh].
+  - apply same_decls_empty. exact HD.
 Qed.
